@@ -1008,8 +1008,9 @@ class Runner:
                 if rc == 0 and 'union-multi-init' in c['notes'] and "expected '}'" in str(crej[k]):
                     self.violation({'what': 'a union initializer list with a second initializer is rejected', 'input': inp,
                                     'expected': 'accepted (gcc -std=c11 -pedantic-errors accepts it)', 'got': str(crej[k]).strip()}, c, KNOWN_UNION2)
-                elif rc == 0:
-                    corr.violations.append({'what': 'a valid C11 initializer is rejected', 'input': inp, 'expected': 'accepted (gcc -std=c11 -pedantic-errors accepts it)',
+                elif rc == 0 or (parse_ok and ({'range-designator', 'flexible-member'} & set(c['features']))):
+                    # (range designators and flexible array members are GNU, but the property names them: gcc -std=gnu11 is the judge)
+                    corr.violations.append({'what': 'a valid C11 initializer is rejected', 'input': inp, 'expected': 'accepted (gcc accepts it)',
                                             'got': str(crej[k])})
                 else:
                     corr.count('chibicc_rejects_gnu_extension')
@@ -1163,7 +1164,7 @@ def load_corpus():
         for fn in sorted(os.listdir(d)):
             if fn.endswith('.json'):
                 for e in json.load(open(os.path.join(d, fn))):
-                    cases.append({'ty': T(e['type']), 'toks': K(e['init']), 'features': ['corpus:' + e.get('name', fn)],
+                    cases.append({'ty': T(e['type']), 'toks': K(e['init']), 'features': ['corpus:' + e.get('name', fn)] + e.get('features', []),
                                   'notes': e.get('notes', [])})
     return cases
 
